@@ -26,14 +26,19 @@ Inductive shape :=
 | SVec (s : shape)
 | SKeyed (s : shape).
 
-(** one accessor of a chain: .field_i(), .unwrap(), .at_unkeyed(i), AtKeyed::new(.., k) *)
-Inductive step := Fld (i : nat) | Unw | Idx (i : nat) | Key (k : Z).
+(** one accessor of a chain: .field_i(), .unwrap(), .at_unkeyed(i), AtKeyed::new(.., k), and
+    [Era false]: hand the field on as a type-erased ArcField (`ArcField::from(field)`: same path,
+    same reader, the field's writer, tracking delegated to the wrapped field's track_field);
+    [Era true]: as an arena-allocated Field (`Field::from(ArcField::from(field))`, which delegates
+    everything to that ArcField) *)
+Inductive step := Fld (i : nat) | Unw | Idx (i : nat) | Key (k : Z) | Era (arena : bool).
 
 Definition item_key (it : sexp) : Z := as_Z (nth_s 0 it).
 Definition keys_of (v : sexp) : list Z := map item_key (as_list v).
 
 (** what following a chain has reached *)
 Record reached := mkReached {
+  r_era : option bool;      (* the accessor is a type-erased handle: Some false ArcField, Some true Field *)
   r_sh : shape;
   r_val : option sexp;      (* what reader() gives: None = no guard (key unknown to FieldKeys) *)
   r_segs : path;            (* path() *)
@@ -42,8 +47,11 @@ Record reached := mkReached {
 }.
 
 (** untracked look at the current value: is the child addressed by [st] there? *)
-Definition has_child (sh : shape) (v : sexp) (st : step) : bool :=
-  match sh, st with
+Definition has_child (r : reached) (v : sexp) (st : step) : bool :=
+  match r_sh r, st with
+  | SKeyed _, Era _ => false     (* there is no From<KeyedSubfield> for ArcField *)
+  | _, Era _ => match r_era r with Some true => false | _ => true end
+                                 (* ... and none from Field (the harness does not unwrap it) *)
   | SStruct fs, Fld i => Nat.ltb i (length fs)
   | SOpt _, Unw => match as_list v with [_] => true | _ => false end
   | SVec _, Idx i => Nat.ltb i (length (as_list v))
@@ -55,20 +63,21 @@ Definition has_child (sh : shape) (v : sexp) (st : step) : bool :=
 (** the accessor for one more step *)
 Definition extend (r : reached) (v : sexp) (st : step) : reached :=
   match r_sh r, st with
+  | _, Era a => mkReached (Some a) (r_sh r) (r_val r) (r_segs r) (r_lens r) (r_keys r)
   | SStruct fs, Fld i =>
-      mkReached (nth i fs SInt) (nth_error (as_list v) i) (r_segs r ++ [i]) (r_lens r ++ [i]) (r_keys r)
+      mkReached None (nth i fs SInt) (nth_error (as_list v) i) (r_segs r ++ [i]) (r_lens r ++ [i]) (r_keys r)
   | SOpt s, Unw =>
-      mkReached s (nth_error (as_list v) 0) (r_segs r ++ [0]) (r_lens r ++ [0]) (r_keys r)
+      mkReached None s (nth_error (as_list v) 0) (r_segs r ++ [0]) (r_lens r ++ [0]) (r_keys r)
   | SVec s, Idx i | SKeyed s, Idx i =>
-      mkReached s (nth_error (as_list v) i) (r_segs r ++ [i]) (r_lens r ++ [i]) (r_keys r)
+      mkReached None s (nth_error (as_list v) i) (r_segs r ++ [i]) (r_lens r ++ [i]) (r_keys r)
   | SKeyed s, Key k =>
       let '(f, km) := km_entry (r_segs r) (keys_of v) (r_keys r) in
       match fk_get k f with
       | Some (seg, idx) =>
-          mkReached s (nth_error (as_list v) idx) (r_segs r ++ [seg]) (r_lens r ++ [idx]) km
-      | None => mkReached s None (r_segs r) (r_lens r) km
+          mkReached None s (nth_error (as_list v) idx) (r_segs r ++ [seg]) (r_lens r ++ [idx]) km
+      | None => mkReached None s None (r_segs r) (r_lens r) km
       end
-  | _, _ => mkReached SInt None (r_segs r) (r_lens r) (r_keys r)
+  | _, _ => mkReached None SInt None (r_segs r) (r_lens r) (r_keys r)
   end.
 
 (** follow the chain as far as the current value allows; returns the number of steps taken *)
@@ -77,7 +86,7 @@ Fixpoint walk (r : reached) (chain : list step) (j : nat) : reached * nat :=
   | [] => (r, j)
   | st :: chain =>
       match r_val r with
-      | Some v => if has_child (r_sh r) v st then walk (extend r v st) chain (S j) else (r, j)
+      | Some v => if has_child r v st then walk (extend r v st) chain (S j) else (r, j)
       | None => (r, j)
       end
   end.
@@ -217,7 +226,7 @@ Definition enc_read (v : option sexp) : sexp :=
   match v with Some x => x | None => Lst [Num (-1)%Z] end.
 
 Definition root_reached (sh : shape) (s : state) : reached :=
-  mkReached sh (Some (st_val s)) [] [] (st_keys s).
+  mkReached None sh (Some (st_val s)) [] [] (st_keys s).
 
 (** a reader: (iterate?, accessor chain) *)
 Definition reader := (bool * list step)%type.
@@ -296,12 +305,14 @@ Fixpoint drain (fuel : nat) (sh : shape) (readers : list reader) (sched : list n
 Definition with_val_keys (s : state) (v : sexp) (km : keymap) : state :=
   mkState v km (st_subs s) (st_srcs s) (st_queue s) (st_wakes s) (st_runs s) (st_spos s) (st_last s).
 
-(** which write guard a field hands out *)
-Definition kind_of (chain : list step) (sh : shape) : wkind :=
-  match chain, sh with
-  | [], _ => WRoot
-  | _, SKeyed _ => WKeyed
-  | _, _ => WField
+(** which write guard a field hands out: the store itself its own (WRoot) — but a
+    type-erased handle of the store one like a Subfield's (ArcField::from(store), repaired in
+    306fca7/f31c725) — a keyed collection field WKeyed, everything else WField *)
+Definition kind_of (r : reached) : wkind :=
+  match r_segs r, r_era r, r_sh r with
+  | [], None, _ => WRoot
+  | _, _, SKeyed _ => WKeyed
+  | _, _, _ => WField
   end.
 
 (** `*field.write() = new` (op 0) and `field.patch(new)` (op 1); [kc] = the visiting orders
@@ -315,7 +326,7 @@ Definition do_set (sh : shape) (kc : list nat * list nat) (s : state) (chain : l
   | None => (with_val_keys s (st_val s) (r_keys r), false)
   | Some _ =>
       let v' := set_at (st_val s) (r_lens r) new in
-      let k := kind_of chain (r_sh r) in
+      let k := kind_of r in
       let km :=
         match k with
         | WKeyed => km_update (fst kc) (snd kc) (r_segs r) (keys_of new) (r_keys r)
@@ -364,7 +375,7 @@ Fixpoint zassoc {B} (k : Z) (l : list (Z * B)) : option B :=
 Definition chain_id (c : list step) : list nat :=
   concat (map (fun st => match st with
                          | Fld i => [0; i] | Unw => [1; 0] | Idx i => [2; i]
-                         | Key k => [3; Z.to_nat k] end) c).
+                         | Key k => [3; Z.to_nat k] | Era a => [4; if a then 1 else 0] end) c).
 Fixpoint last_of (c : list nat) (m : list (list nat * list (Z * option nat))) : list (Z * option nat) :=
   match m with
   | [] => []
